@@ -36,7 +36,9 @@ def gen_dary_case(rng, cid, nops):
     arity = rng.randint(1, 8)
     rev = rng.randint(0, 1)
     pr = _Prio(rev)
-    lines = [f"case d{cid}", f"cfg dary {arity} {rev}"]
+    # key type: plain integers, a move-sensitive struct (moved-from objects are poisoned), std::string
+    kt = rng.choice(["u32", "mk", "mk", "str"])
+    lines = [f"case d{cid}", f"cfg dary {arity} {rev} {kt}"]
     invalid = rng.random() < 0.06           # few cases also contain operations that must be refused
     content = []                            # multiset of stored keys (exact: equal keys are indistinguishable
     pool = rng.sample(range(U), rng.choice([3, 6, 12, 30]))   # … but equal priorities of different keys are not)
@@ -217,7 +219,8 @@ def gen_radix_case(rng, cid, nops):
                 key = max(lo, key)
                 lines.append(f"push {key}")
                 continue
-            lines.append(f"{rng.choice(['push', 'push', 'emplace'])} {key}")
+            # incl. the hint overloads push_to_bucket / emplace_in_bucket (index from get_bucket[_key])
+            lines.append(f"{rng.choice(['push', 'push', 'emplace', 'pushb', 'pushb', 'emplaceb'])} {key}")
             bisect.insort(keys, key)
         elif k < 0.55:
             lines.append("top")
@@ -236,6 +239,10 @@ def gen_radix_case(rng, cid, nops):
             lines.append("peak")
         elif k < 0.92:
             lines.append(rng.choice(["size", "empty"]))
+        elif k < 0.935 and keys:
+            lines.append("drain")
+            frontier = keys[-1]
+            keys = []
         elif k < 0.95:
             lines.append("clear")
             keys = []
@@ -249,6 +256,8 @@ def gen_radix_case(rng, cid, nops):
 
 class C13(flow.Spec):
     pid = "C13"
+    source_files = ("tlx/container/d_ary_heap.hpp", "tlx/container/d_ary_addressable_int_heap.hpp",
+                    "tlx/container/radix_heap.hpp")
     # -O0: thirty RadixHeap instantiations take 95 s to compile at -O1 and 20 s at -O0
     harness = dict(name="c13", sources=["c13.cpp"], flags=["-O0"], repo_sources=["tlx/die/core.cpp"])
     nontrivial_rule = ("random histories from VERIF_SEED; a d-ary / addressable case is non-trivial when it rebuilds "
@@ -269,11 +278,13 @@ class C13(flow.Spec):
 
     def viol_class(self, message):
         import re
-        return re.sub(r"[0-9]+", "N", " ".join(message.split(" after ")[0].split()[:6]))[:80]
+        return re.sub(r"-?[0-9]+", "N", " ".join(message.split(" after ")[0].split()[:6]))[:80]
 
     def cases(self, ctx, seed, tier, round_no=0):
         rng = random.Random(seed * 1000003 + round_no * 7919 + 13)
         n = 250 if tier == "quick" else 12000
+        if tier == "thorough" and getattr(ctx, "tier", tier) == "quick":
+            n = 2500       # quick run validating changed sources in depth: bounded (a broken tree crashes often)
         cs = []
         for i in range(n):
             cs.append(gen_dary_case(rng, i, rng.choice([8, 20, 40, 80])))
@@ -282,6 +293,15 @@ class C13(flow.Spec):
         for i in range(n + n // 2):
             cs.append(gen_radix_case(rng, i, rng.choice([10, 30, 60, 120])))
         return cs
+
+    def probe_lines(self, case, idx):
+        """observations that turn a structural disagreement into a visible failure of the property"""
+        kind = case[0].split()[1][0]
+        if kind == "d":
+            return ["sanity", "top", "drain", "size"]
+        if kind == "a":
+            return ["sanity"] + [f"contains {k}" for k in range(U)] + ["drain", "size"]
+        return ["peak", "size", "drain", "size"]
 
     def nontrivial(self, case, answers):
         kind = case[0].split()[1][0]
